@@ -20,7 +20,6 @@ import (
 	tlog "github.com/tetratelabs/log"
 	"github.com/tetratelabs/telemetry"
 	"google.golang.org/protobuf/encoding/protojson"
-	"google.golang.org/protobuf/proto"
 
 	configv1 "github.com/istio-ecosystem/authservice/config/gen/go/v1"
 	"github.com/istio-ecosystem/authservice/internal"
@@ -573,18 +572,13 @@ func (d *driver) setup(spec CfgSpec) error {
 	if err := os.WriteFile(p, b, 0o600); err != nil {
 		return err
 	}
-	cf := &internal.LocalConfigFile{}
-	if err := cf.FlagSet().Parse([]string{"--config-path", p}); err != nil {
-		return err
-	}
-	if err := cf.Validate(); err != nil {
-		return fmt.Errorf("config rejected: %w", err)
-	}
 	ctx, cancel := context.WithCancel(context.Background())
 	e.cancel = cancel
-	// assembled as cmd/main.go does: the units are constructed around the configuration object while it is still empty, the
-	// loaded configuration arrives in that very object afterwards, then the PreRun steps run
-	e.cfgFile, e.cfg = cf, &configv1.Config{}
+	// assembled as cmd/main.go does: the units are constructed around the configuration object of the (still unread)
+	// configuration file, the file is read into that very object afterwards (sub-messages the loader shares between
+	// filters stay shared), then the PreRun steps run
+	cf := &internal.LocalConfigFile{}
+	e.cfgFile, e.cfg = cf, &cf.Config
 	logging := internal.NewLogSystem(quietLogger(), e.cfg) // first, as in main: the units below take their loggers from it
 	tlsPool := internal.NewTLSConfigPool(ctx)
 	jw := oidc.NewJWKSProvider(e.cfg, tlsPool)
@@ -595,7 +589,14 @@ func (d *driver) setup(spec CfgSpec) error {
 		keys = jw
 	}
 	e.filter = server.NewExtAuthZFilter(e.cfg, tlsPool, keys, e.factory)
-	proto.Merge(e.cfg, &cf.Config)
+	if err := cf.FlagSet().Parse([]string{"--config-path", p}); err != nil {
+		cancel()
+		return err
+	}
+	if err := cf.Validate(); err != nil {
+		cancel()
+		return fmt.Errorf("config rejected: %w", err)
+	}
 	if pr, ok := logging.(interface{ PreRun() error }); ok {
 		_ = pr.PreRun() // applies log_level
 	}
